@@ -505,7 +505,8 @@ func (prog Progress) walkTransforming(n datamodel.Node, s selector.Selector, fn 
 
 func contains(interest []datamodel.PathSegment, candidate datamodel.PathSegment) bool {
 	for _, i := range interest {
-		if i == candidate {
+		// n.b. not ==: a segment has two spellings (string or int) for the same position.
+		if i.Equals(candidate) {
 			return true
 		}
 	}
